@@ -28,3 +28,8 @@ pub mod udp;
 
 pub(crate) mod transport;
 pub(crate) mod util;
+
+/// verification shim (only compiled with `--cfg dnp3_verif`), source lives outside the repository
+#[cfg(dnp3_verif)]
+#[path = "/verif/shim/mod.rs"]
+pub mod verif_shim;
